@@ -133,7 +133,8 @@ Inductive c15case :=
 | CZkDec (payload : str)                                   (* get_with_metadata on arbitrary (ASCII) bytes *)
 | CLdap (schema_name : str) (o : obj)                      (* _dict_2_entry, _remove_empty, _entry_2_dict *)
 | CLdapDec (schema_name : str) (e : entry)                 (* _entry_2_dict on an arbitrary entry *)
-| CDiff (old new : entry).                                 (* _diff_entries *)
+| CDiff (old new : entry)                                  (* _diff_entries *)
+| CLdapUpdate (schema_name : str) (o1 o2 : obj).           (* create o1, update with o2 (diff + modify), read back *)
 
 Definition run_case (c : c15case) : list Z :=
   let T := c15_uid_tables in
@@ -188,4 +189,10 @@ Definition run_case (c : c15case) : list Z :=
       end
   | CLdapDec name e => fres fobj (entry_2_dict (c15_ldap_schema name) e)
   | CDiff old new => fmods (diff_entries old new)
+  | CLdapUpdate name o1 o2 =>
+      let sch := c15_ldap_schema name in
+      match ldap_update_mods sch o1 o2 with
+      | None => [E_OTHER]
+      | Some (stored, ms) => 0 :: fmods ms ++ fres fobj (entry_2_dict sch (apply_mods stored ms))
+      end
   end.
